@@ -26,8 +26,44 @@ package function
 //@   ensures[C10] argerr: (=> (and ((_ is box<function.ArgError>) err) (not (from_callback err))) (and (<= 0 idx) (< idx (Slice.len args)) (arg_offends (sp_param_for sp idx) (val_at args idx))))
 //@   ensures[C10] dyn: (=> dynTypedArgs (and (= err nil.Any) (is_dyn_ty ty)))
 //@   ensures[C10] arity: (=> (or (< (Slice.len args) (sp_nparams sp)) (and (not (sp_hasvar sp)) (not (= (Slice.len args) (sp_nparams sp))))) (and (not (= err nil.Any)) (not ((_ is box<function.ArgError>) err))))
+//@   ensures[C10] typed: (=> (= err nil.Any) (wf_ty ty))
+//@   ensures[C10] checked: (=> (and (= err nil.Any) (not dynTypedArgs)) (and (arity_ok sp (Slice.len args)) (args_checked sp args (Slice.len args))))
 //@   loop 1 invariant (= (Slice.len args) (Slice.len $p.args))
+//@   loop 1 invariant (args_checked sp $p.args $i)
 //@   loop 2 invariant (= (Slice.len args) (Slice.len $p.args))
+//@   loop 2 invariant (args_checked sp $p.args (+ (sp_nparams sp) $i))
 //@   calls f.spec.Type
 //@     may_panic
 //@     ensures (from_callback result.1)
+//@     ensures (=> (= result.1 nil.Any) (wf_ty result.0))
+//
+//@ func (function.Function).Call
+//@   tags C10
+//@   requires (not (= (function.Function.spec f) 0))
+//@   requires (sp_wf (spec_of f))
+//@   requires (vals_typed args (Slice.len args))
+//@   requires (<= (Slice.len args) 1048576)
+//@   let sp (spec_of f)
+//@   let hv $H<Arr<cty.Value>>
+//@   let rel (forall ((j Int)) (! (=> (and (trig j) (<= 0 j) (< j (Slice.len $p.args))) (or (= (hval_at hv args j) (val_at $p.args j)) (= (hval_at hv args j) (deep_unmark (val_at $p.args j))))) :pattern ((trig j))))
+//@   ensures[C10] errnil: (=> (not (= err nil.Any)) (= val $G<cty.NilVal>))
+//@   loop 1 invariant (= (Slice.len args) (Slice.len $p.args))
+//@   loop 1 invariant (=> dynTypeArgs returnUnknown)
+//@   loop 1 invariant rel
+//@   loop 1 invariant (forall ((j Int)) (! (=> (and (trig j) (<= 0 j) (< j $i) (not (function.Parameter.AllowMarked (sp_param_for sp j)))) (not (deep_marked (hval_at hv args j)))) :pattern ((trig j))))
+//@   loop 1 invariant (=> (not returnUnknown) (forall ((j Int)) (! (=> (and (trig j) (<= 0 j) (< j $i) (not (function.Parameter.AllowUnknown (sp_param_for sp j)))) (is_known (val_at $p.args j))) :pattern ((trig j)))))
+//@   loop 1 invariant (or (= (Slice.ptr resultMarks) 0) (< (Slice.ptr resultMarks) $wme@1))
+//@   loop 1 invariant (and (<= (Slice.len resultMarks) $i) (marksets_ok_h $H<Arr<Int>> $H<MapC<Any~Unit>> resultMarks (Slice.len resultMarks) $wm $wme@1))
+//@   loop 2 invariant (= (Slice.len args) (Slice.len $p.args))
+//@   loop 2 invariant (=> dynTypeArgs returnUnknown)
+//@   loop 2 invariant rel
+//@   loop 2 invariant (forall ((j Int)) (! (=> (and (trig j) (<= 0 j) (< j (+ (sp_nparams sp) $i)) (not (function.Parameter.AllowMarked (sp_param_for sp j)))) (not (deep_marked (hval_at hv args j)))) :pattern ((trig j))))
+//@   loop 2 invariant (=> (not returnUnknown) (forall ((j Int)) (! (=> (and (trig j) (<= 0 j) (< j (+ (sp_nparams sp) $i)) (not (function.Parameter.AllowUnknown (sp_param_for sp j)))) (is_known (val_at $p.args j))) :pattern ((trig j)))))
+//@   loop 2 invariant (or (= (Slice.ptr resultMarks) 0) (< (Slice.ptr resultMarks) $wme@1))
+//@   loop 2 invariant (and (<= (Slice.len resultMarks) (+ (sp_nparams sp) $i)) (marksets_ok_h $H<Arr<Int>> $H<MapC<Any~Unit>> resultMarks (Slice.len resultMarks) $wm $wme@1))
+//@   calls f.spec.Impl
+//@     may_panic
+//@     requires[C10] contract: (impl_args_ok sp $H<Arr<cty.Value>> args)
+//@     ensures (=> (= result.1 nil.Any) (and (wf_marks result.0) (wf_ty (cty.Value.ty result.0))))
+//@   calls refineResult
+//@     may_panic
